@@ -30,7 +30,7 @@ ASSUMPTIONS = [
     "BeaconGate: group labels first (All | Comms, Core, Cleanup in that order), then the remaining individual APIs in flag-vector order",
     "kill dates are 8-digit YYYYMMDD integers or 0",
 ]
-REQUIRED_MONITORS = ["transform", "recover", "execute", "beacongate", "strings", "derived", "procinj", "gargle", "pivot"]
+REQUIRED_MONITORS = ["transform", "recover", "execute", "beacongate", "strings", "derived", "procinj", "gargle", "pivot", "decode.fresh"]
 EXHAUSTIVE_WHEN = ["beacongate_2^23"]
 
 OPC = tables.TRANSFORM_OPCODES
@@ -364,6 +364,43 @@ def check_case(case, ctx):
             if got != want or (isinstance(want, bool) and got is not want):
                 ctx.violation(monitor, f"setting/property {key}: decoded {core.short(got, 200)} but the encoded value was {core.short(want, 200)}", case)
                 return
+        # what a decoder returned belongs to the caller: after the caller edited it, the same bytes decode to the same value
+        # again - through the decoding functions themselves, through this object's views and through a new object
+        ctx.mon("decode.fresh")
+        try:
+            snap = repr(list(s_idx.items()))
+            raw = cfg.raw_settings_by_index
+            for enum_key, func in beacon.SETTING_TO_PRETTYFUNC.items():
+                data = raw.get(enum_key.value)
+                if not isinstance(data, bytes):
+                    continue
+                try:
+                    first = func(data)
+                except Exception:  # noqa: BLE001  out-of-domain value: not this monitor's subject
+                    continue
+                if isinstance(first, list):
+                    before = repr(first)
+                    first.append(("edited", b"by the caller"))
+                    first.reverse()
+                    second = func(data)
+                    if repr(second) != before:
+                        ctx.violation("decode.fresh", f"{func.__name__}: decoding the same bytes again after the caller edited the first result gives {core.short(repr(second), 120)}, "
+                                      f"at first {core.short(before, 120)}", case)
+                        return
+            for k in list(s_idx):
+                v = s_idx[k]
+                if isinstance(v, list):
+                    v.append(("edited", b"by the caller"))
+                    v.insert(0, "edited")
+            again = repr(list(beacon.BeaconConfig(block).settings_by_index.items()))
+            same_obj = repr(list(cfg.settings_by_index.items()))
+        except Exception as e:  # noqa: BLE001
+            ctx.violation("decode.fresh", f"{type(e).__name__}: {e}", case)
+            return
+        if again != snap or same_obj != snap:
+            ctx.violation("decode.fresh", "after the caller edited lists taken from the pretty view, the view (same object / new object of the same block) reports other values "
+                          "than before", case)
+            return
         ctx.ok(fp=block, case={"op": "block", "block": block, "expected": [(m, k, w) for m, _, k, w in exp][:6]},
                classes=tuple({f"has:{m}" for m, _, _, _ in exp}))
     elif op == "gate":
